@@ -280,6 +280,10 @@ pub fn exec_case(st: &mut Stats, sub: &mut Subject, rs: &RunSpec, tape: &mut Tap
     if pe > 0 {
         st.add("polls_after_stream_end", pe);
     }
+    let fc = crate::director::FNREF_CLONES.with(|c| c.replace(0));
+    if fc > 0 {
+        st.add("fnref_clones_made_and_dropped", fc);
+    }
     let hands = t.log.iter().filter(|e| matches!(e, Ev::Start(_) | Ev::Yield(_) | Ev::YieldIntr(_))).count();
     st.add("functions_handed_out", hands as u64);
     if sub.gs.n >= 2 && hands >= 2 {
